@@ -6,6 +6,7 @@ pub mod zv;
 pub mod bind;
 pub mod envp;
 pub mod gitx;
+pub mod numpool;
 
 use std::collections::BTreeMap;
 use std::hash::{Hash, Hasher};
